@@ -129,3 +129,29 @@ PROPS["C09"] = dict(
                 quick=dict(workers=8, checks=1000, steps=25, watchdog_s=900),
                 thorough=dict(workers=16, checks=100000, steps=25, watchdog_s=7200, max_clients=64))],
 )
+
+PROPS["C10"] = dict(
+    level="exploration",
+    engine="hist+medium",
+    technique="deterministic simulation of a receive path with one reusable buffer: seeded histories of deliver/decode/keep and buffer faults (overwrite, poison, shift, truncate+re-append) at arbitrary later instants; digest-at-hand-out oracle; rapid shrinking",
+    design_ref="DESIGN.md 4.1, 4.4, 5 (C10)",
+    level_text=("Seeded search over histories in which frames are delivered into one reusable buffer, decoded by the regenerated default-mode Unmarshal of every corpus type "
+                "(generated method and csproto.Unmarshal) or by lazyproto in safe mode (Decoder.Decode and the deprecated Decode function), results and accessor values are "
+                "kept, and the buffer is later overwritten, poisoned, shifted or truncated and re-appended - also between two accessor calls on a live lazy result. "
+                "Every retained message/value must keep the digest taken at hand-out time; lazy accessors called after a fault must still show the frame as delivered. "
+                "Fast mode runs the same histories judged for panics only (opt-in is excluded by the property). Sampling, not proof."),
+    level_note="Trusted: protobuf-go reflection (digest, frame encoding without csproto), the harness buffer model, rapid.",
+    needs=["corpus"],
+    rule=("one execution = one corpus type (gen test) or one lazy definition/option tuple (lazy test), 2-5 frames, and a drawn history of deliver+decode, accessor, nested, "
+          "close and buffer-fault events; non-trivial = at least one buffer fault fired while a decoded message, live lazy result or handed-out value was retained; "
+          "distinct = hash of type/definition, frames and steps"),
+    real=["regenerated default-mode Unmarshal of all example types", "csproto.Unmarshal dispatch", "csproto.Decoder", "lazyproto (both entry points, all accessors)"],
+    model=["the caller's receive buffer and its recycling", "pool model fixed to LIFO without faults (pool behaviour is not under study here)"],
+    assumptions=["enableunsafedecode builds are not regenerated here; the opt-in fast path is exercised through lazyproto's fast mode and judged for panics only"],
+    tests=[dict(name="TestC10Gen", pkg="c10", race=False, mem_gb=16,
+                quick=dict(workers=16, checks=1500, steps=20, watchdog_s=900),
+                thorough=dict(workers=16, checks=150000, steps=25, watchdog_s=7200)),
+           dict(name="TestC10Lazy", pkg="c10", race=False, mem_gb=16,
+                quick=dict(workers=16, checks=4000, steps=30, watchdog_s=900),
+                thorough=dict(workers=16, checks=400000, steps=40, watchdog_s=7200))],
+)
